@@ -9,7 +9,7 @@
      "end"         quiescence: every datagram was handled
    state / qlen are _ClientData.state and len(_ClientData._datagram_queue) read at that moment on the real object.
    Pushes, task starts, the done-hook and "yield again" are not logged: TLC interleaves them as silent steps.        *)
-EXTENDS DatagramServer, Json, IOUtils
+EXTENDS DatagramServer, Json, IOUtils, Integers
 
 Traces == JsonDeserialize(IOEnv.TRACE_FILE)
 VARIABLES tid, l
@@ -22,7 +22,7 @@ TInit == /\ tid \in 1..Len(Traces) /\ l = 1 /\ par = Traces[tid].par
          /\ ctask = [st |-> "none", served |-> 0] /\ seen = <<>> /\ gens = 0 /\ ngen = 0
 
 IsEvent(e) == l <= Len(T.events) /\ Ev.ev = e /\ l' = l + 1 /\ UNCHANGED tid
-Obs == Ev.state = state' /\ Ev.qlen = Len(queue')
+Obs == Ev.qlen < 0 \/ (Ev.state = state' /\ Ev.qlen = Len(queue'))      \* qlen = -1: state not observed (real socket listener)
 
 TArrive == IsEvent("arrive") /\ Arrive /\ Ev.id = arrived'
 TGenStart == IsEvent("gen_start") /\ GenStart /\ Obs
